@@ -4,6 +4,7 @@
 -/
 import XonshVerif.Model.Wire
 import XonshVerif.Model.Macro
+import XonshVerif.Model.WithMacro
 import XonshVerif.Model.Helpers
 import XonshVerif.Model.Pipeline
 import XonshVerif.Model.Lines
@@ -23,6 +24,21 @@ def readTok (f : String) : Tok :=
   match f.splitOn "|" with
   | [ty, s, a, b] => { ty := TT.ofString ty, str := decStr s, start := readPos a, stop := readPos b }
   | _ => default
+
+/-- token field with the line attribute: TYPE|str|l:c|l:c|line -/
+def readWTok (f : String) : WithMacro.WTok :=
+  match f.splitOn "|" with
+  | [ty, s, a, b, ln] => { ty := TT.ofString ty, str := decStr s, start := readPos a, stop := readPos b, line := decStr ln }
+  | _ => default
+
+/-- `withmacro (n=line)* ## tok*` : `consume_with_macro_params` on the raw tokens it pulled; `n=line` is what
+    `get_lines([n])` returns -> `param|<string>|consumed=<n>|cleared=<bool>` -/
+def handleWithMacro (fs : List String) : String :=
+  let table := (fs.takeWhile (· ≠ "##")).filterMap (fun f => match f.splitOn "=" with | [n, l] => some (nat n, decStr l) | _ => none)
+  let toks := ((fs.dropWhile (· ≠ "##")).drop 1).map readWTok
+  let getLine (n : Nat) : List Nat := ((table.find? (·.1 = n)).map (·.2)).getD []
+  let (str, n, c) := WithMacro.consumeWithMacro getLine toks
+  s!"param|{encStr str}|consumed={n}|cleared={c}"
 
 /-- `macro <spacechars> tok*` -/
 def handleMacro (fs : List String) : String :=
